@@ -181,7 +181,17 @@ fn chacha(variant: &str, key: &[u8], nonce: &[u8], pos: u64, len: usize, seed: u
             let r = guard(|| c.try_apply_keystream(g.slice_mut()));
             let s = match r {
                 None => "panic".to_string(),
-                Some(Ok(())) => hex(g.slice()),
+                Some(Ok(())) => {
+                    // a second request on the same object (ordinary heap buffer): the first slice,
+                    // whatever its length and placement, must leave the object where the next call expects it
+                    let mut t = pat_bytes(seed + 1, 77);
+                    let second = match guard(|| c.try_apply_keystream(&mut t)) {
+                        None => "panic".to_string(),
+                        Some(Ok(())) => hex(&t),
+                        Some(Err(_)) => "err".to_string(),
+                    };
+                    hex(g.slice()) + "|" + &second
+                }
                 Some(Err(_)) => {
                     if g.slice() == &input[..] {
                         "err".to_string()
